@@ -69,7 +69,7 @@ def random_fn(rng, name, profile, helpers=(), in_module=False, forbid_names=()):
     f.bounds = [h[0] for h in bounds]
     if f.deps_kind in ("generic_ref", "impl_ref") and rng.random() < P.get("p_relaxed_deps", 0.08):
         # a relaxed bound on the dependency: legal on the fn, never a requirement of the generated impl
-        f.bounds.insert(rng.randint(0, len(f.bounds)), "?Sized")
+        f.bounds.insert(rng.randint(0, len(f.bounds)), "?::core::marker::Sized")
     f.bound_place = rng.choice(["inline", "where", "split"])
     if f.by_value():
         f.bounds.append("::vrt::Tag")
